@@ -43,24 +43,29 @@ def run(tier):
     rep = harness.Report(PID, tier, "model_checking", MODULE)
     rep.encoded(SimultaneousScheduler.run, SimultaneousScheduler.run_step, Model.run, Model.run_step, Model.run_specs,
                 DataCollector.collect_agent_statistics)
-    dts = [1.0, 0.5, 0.25, 0.2, 0.1] if tier == "quick" else [1.0, 0.5, 0.25, 0.2, 0.1, 0.125, 0.05, 0.04]
-    tmo = 150 if tier == "quick" else 900
+    # the claim (both tiers): these conditions must all be confirmed.  The thorough tier adds deeper slices
+    # (smaller dt, deletion at small dt) under a wall-time budget; what CrossHair does not finish is not explored.
+    base_dts, deep_dts = [1.0, 0.5, 0.25, 0.2, 0.1], ([0.125, 0.05, 0.04] if tier == "thorough" else [])
+    dts = base_dts + deep_dts
     jobs = []
     for dt in dts:
+        req = dt in base_dts
+        tmo = (150 if tier == "quick" else 300) if req else 900
         maxstop = 3
         for st in range(0, maxstop + 1):
             for col in (0, 1):
                 jobs.append((HFILE, "_whole", tmo, {"C12_DT": repr(dt), "C12_START": str(st), "C12_COLLECT": str(col),
-                                                    "C12_MAXSTOP": str(maxstop)}, ("whole", dt)))
-        jobs.append((HFILE, "_single", tmo, {"C12_DT": repr(dt)}, ("single", dt)))
-        if dt >= 0.2 or tier != "quick":
-            jobs.append((HFILE, "_deletion", tmo, {"C12_DT": repr(dt)}, ("deletion", dt)))
-    jobs.append((HFILE, "_whole_twin", 60, {"C12_DT": "1.0"}, ("twin", 1.0)))
-    jobs.append((HFILE_MUT, "_whole", 120, {"C12_DT": "0.5"}, ("canary", 0.5)))
-    with ThreadPoolExecutor(max_workers=harness.nprocs()) as ex:
-        results = list(ex.map(lambda j: chx.run_condition(j[0], j[1], j[2], j[3]), jobs))
+                                                    "C12_MAXSTOP": str(maxstop)}, ("whole", dt), req))
+        jobs.append((HFILE, "_single", tmo, {"C12_DT": repr(dt)}, ("single", dt), req))
+        if dt >= 0.2:
+            jobs.append((HFILE, "_deletion", tmo, {"C12_DT": repr(dt)}, ("deletion", dt), req))
+        elif tier == "thorough":
+            jobs.append((HFILE, "_deletion", 900, {"C12_DT": repr(dt)}, ("deletion", dt), False))
+    jobs.append((HFILE, "_whole_twin", 60, {"C12_DT": "1.0"}, ("twin", 1.0), True))
+    jobs.append((HFILE_MUT, "_whole", 120, {"C12_DT": "0.5"}, ("canary", 0.5), True))
+    results = chx.run_jobs([(j[0], j[1], j[2], j[3], j[5]) for j in jobs])
     samples, confirmed = [], 0
-    for (hf, fn, t, env, (kind, dt)), r in zip(jobs, results):
+    for (hf, fn, t, env, (kind, dt), req), r in zip(jobs, results):
         label = "%s dt=%g" % (kind, dt)
         if kind == "twin":
             if r.verdict != chx.VERDICT_CEX:
@@ -88,7 +93,7 @@ def run(tier):
                 why = _with_dt(dt, "run_single_steps", case["stop"], case["nsteps"], case["npop"])
             rep.candidate(_sig(kind, dt, why), case, "%s %s: %s" % (label, case, why))
         else:
-            rep.inconcl("%s: CrossHair verdict %s (%s)" % (label, r.verdict, r.message[:200]))
+            chx.unfinished(rep, label, r, req)
         if len(samples) < 8:
             samples.append({"condition": label, "verdict": r.verdict, "seconds": round(r.seconds, 1), "message": r.message[:160]})
     rep.assume("start 0..3, stop 1..3 (stop = 0 divides by zero in the progress computation and is outside), population 0..3, collect_data symbolic",
